@@ -10,6 +10,7 @@ import Driver.Ops.Out
 import Driver.Ops.Scale
 import Driver.Ops.Strict
 import Driver.Ops.Ts
+import Driver.Ops.Group
 /-! Line-protocol driver of the model: one JSON case per input line, one JSON answer per line.
     To add an op: write `Driver/Ops/<Name>.lean`, import it here, add one line to `opTable`
     (or to `outputTable` for a new output kind of op `run`). -/
@@ -23,7 +24,8 @@ def outputTable : List (String × Ops.OutputFn) := [
   ("register_all", Ops.outRegisterAll),
   ("equity", Ops.outEquity),
   ("baltxt", Ops.outBalanceTxt),
-  ("probe", Ops.outProbe)
+  ("probe", Ops.outProbe),
+  ("balgrp", Ops.outBalGrp)
 ]
 
 /-- ops -/
